@@ -230,6 +230,13 @@ def gen_case(rng, family, renames):
         g2 = g
     if rng.random() < 0.3:
         prefix_names(rng, g2)
+    if rng.random() < 0.4:
+        # some external inputs bound on the top-level graph (drawn as inputs all the same, next to unbound ones)
+        produced = {o for n in g2["nodes"] for o in gen.iface(n)[1]}
+        ext = sorted({p for n in g2["nodes"] for p in gen.iface(n)[0]} - produced)
+        b = {x: 7 for x in ext if rng.random() < 0.5}
+        if b:
+            g2["bound"] = dict(g2.get("bound", {}), **b)
     if renames:
         g3 = copy.deepcopy(g2)
         n_ren = rename_boundary(rng, g3, [0])
